@@ -30,6 +30,8 @@ func (e *Engine) runStatic(name, prop string) ([]staticResult, []string) {
 		return e.observerFrames(prop)
 	case "lock-dominates":
 		return e.lockDominates(prop)
+	case "ident-impls":
+		return e.identImpls(prop)
 	}
 	return nil, []string{"unknown static check " + name}
 }
@@ -451,6 +453,148 @@ func (e *Engine) lockDominates(prop string) ([]staticResult, []string) {
 			r.Detail = strings.Join(problems, "; ")
 		}
 		res = append(res, r)
+	}
+	return res, errs
+}
+
+// identImpls: the interface contracts of namedVar.{ID,SetID,IsUnnamed} and
+// metadata.Definition.{ID,SetID} speak about abstract state (nvid/nvun/mdid).
+// They are justified by (1) the field-level contracts of the six identifier
+// methods below (verified deductively) and (2) this structural obligation:
+// every type implementing the interface gets these methods by promotion from
+// an identifier struct embedded by value (so distinct objects have distinct
+// identifiers and nothing else happens in the call).
+func (e *Engine) identImpls(prop string) ([]staticResult, []string) {
+	type want struct {
+		ifacePkg, iface string
+		methods         map[string][]string // method -> allowed underlying functions
+	}
+	ir := modPath + "/ir"
+	md := modPath + "/ir/metadata"
+	wants := []want{
+		{ir, "namedVar", map[string][]string{
+			"ID":        {"(" + ir + ".LocalIdent).ID", "(" + ir + ".GlobalIdent).ID"},
+			"SetID":     {"(*" + ir + ".LocalIdent).SetID", "(*" + ir + ".GlobalIdent).SetID"},
+			"IsUnnamed": {"(" + ir + ".LocalIdent).IsUnnamed", "(" + ir + ".GlobalIdent).IsUnnamed"},
+		}},
+		{md, "Definition", map[string][]string{
+			"ID":    {"(" + md + ".MetadataID).ID"},
+			"SetID": {"(*" + md + ".MetadataID).SetID"},
+		}},
+	}
+	var res []staticResult
+	var errs []string
+	for _, w := range wants {
+		pp := e.ppkgs[w.ifacePkg]
+		if pp == nil {
+			errs = append(errs, "ident-impls: package "+w.ifacePkg+" not loaded")
+			continue
+		}
+		obj := pp.Types.Scope().Lookup(w.iface)
+		if obj == nil {
+			errs = append(errs, "ident-impls: contract-stale: no interface "+w.iface)
+			continue
+		}
+		it, ok := obj.Type().Underlying().(*types.Interface)
+		if !ok {
+			errs = append(errs, "ident-impls: "+w.iface+" is not an interface")
+			continue
+		}
+		n := 0
+		var impls []types.Type
+		for _, p := range e.ppkgs {
+			if p.Types == nil || !inRepoPkg(p.Types) {
+				continue
+			}
+			sc := p.Types.Scope()
+			for _, nm := range sc.Names() {
+				tn, ok := sc.Lookup(nm).(*types.TypeName)
+				if !ok || tn.IsAlias() {
+					continue
+				}
+				if _, isI := tn.Type().Underlying().(*types.Interface); isI {
+					continue
+				}
+				for _, cand := range []types.Type{tn.Type(), types.NewPointer(tn.Type())} {
+					if types.Implements(cand, it) {
+						impls = append(impls, cand)
+						break
+					}
+				}
+			}
+		}
+		sort.Slice(impls, func(i, j int) bool { return impls[i].String() < impls[j].String() })
+		for _, T := range impls {
+			ms := e.prog.MethodSets.MethodSet(T)
+			var mnames []string
+			for m := range w.methods {
+				mnames = append(mnames, m)
+			}
+			sort.Strings(mnames)
+			for _, m := range mnames {
+				n++
+				short := strings.Replace(T.String(), modPath+"/", "", -1)
+				r := staticResult{Name: "ident-impl:" + short + "." + m, Func: T.String() + "." + m, Kind: "ident-impl", Status: "unsat",
+					Detail: m + " of " + short + " is the promoted method of an identifier struct embedded by value"}
+				var sel *types.Selection
+				for i := 0; i < ms.Len(); i++ {
+					if ms.At(i).Obj().Name() == m {
+						sel = ms.At(i)
+					}
+				}
+				if sel == nil {
+					r.Status, r.Detail = "fail", "method not found"
+					res = append(res, r)
+					continue
+				}
+				// underlying declared method
+				fobj := sel.Obj().(*types.Func)
+				decl := e.prog.FuncValue(fobj)
+				full := ""
+				if decl != nil {
+					full = decl.String()
+				}
+				okFn := false
+				for _, a := range w.methods[m] {
+					if a == full {
+						okFn = true
+					}
+				}
+				// the promotion path must go through fields embedded by value only
+				byValue := true
+				cur := T
+				if p, ok := cur.Underlying().(*types.Pointer); ok {
+					cur = p.Elem()
+				}
+				idx := sel.Index()
+				for _, fi := range idx[:len(idx)-1] {
+					st, ok := cur.Underlying().(*types.Struct)
+					if !ok {
+						byValue = false
+						break
+					}
+					ft := st.Field(fi).Type()
+					if _, isPtr := ft.Underlying().(*types.Pointer); isPtr {
+						byValue = false
+					}
+					if _, isIfc := ft.Underlying().(*types.Interface); isIfc {
+						byValue = false
+					}
+					cur = ft
+				}
+				r.Pos = posOf(e, fobj.Pos())
+				switch {
+				case !okFn:
+					r.Status, r.Detail = "fail", m+" of "+short+" is "+full+", not one of the identifier methods under contract"
+				case !byValue:
+					r.Status, r.Detail = "fail", m+" of "+short+" is promoted through a pointer or interface field: two objects could share one identifier"
+				}
+				res = append(res, r)
+			}
+		}
+		if n == 0 {
+			errs = append(errs, "ident-impls: no implementation of "+w.iface+" found (vacuous)")
+		}
 	}
 	return res, errs
 }
